@@ -22,9 +22,12 @@ open Lean
 partial def loop (h : IO.FS.Stream) (f : Json → Except String Json) : IO Unit := do
   let line ← h.getLine
   if line.isEmpty then return ()
-  match Json.parse line >>= f with
-  | .ok j => IO.println j.compress
+  match Json.parse line with
   | .error e => IO.println (Json.mkObj [("error", e)]).compress
+  | .ok c =>
+    match f c with
+    | .ok j => IO.println j.compress
+    | .error e => IO.println (Json.mkObj [("id", c.getObjValD "id"), ("error", e)]).compress   -- the answer names its case: the checker keeps its place
   loop h f
 
 def main (args : List String) : IO UInt32 := do
